@@ -478,6 +478,9 @@ func (_this *Context) ValidateTime(value compact_time.Time) {
 }
 
 func (_this *Context) ValidateMediaType(mediaType string) {
+	// The media type is a byte array of the document like any other (the CBE
+	// decoder has to bound it by this limit before it can read it)
+	_this.ValidateLengthAnyType(uint64(len(mediaType)))
 	if !utf8.ValidString(mediaType) {
 		panic(fmt.Errorf("media type is not valid UTF-8: %v", mediaType))
 	}
